@@ -232,7 +232,10 @@ class Interp(ExtMixin):
             return extra
         self.stats["feas_calls"] += 1
         s = z3.Solver()
-        s.set("timeout", self.feas_timeout_ms)
+        # deterministic resource budget (load-independent: a wall-clock cut makes infeasible paths look feasible on a busy machine and
+        # the number of paths explode); the wall-clock limit is only a failsafe.  ~5000 units per millisecond on this class of query.
+        s.set("rlimit", int(self.feas_timeout_ms) * 5000)
+        s.set("timeout", max(10000, int(self.feas_timeout_ms) * 30))
         for f in st.pc:
             s.add(f)
         s.add(extra)
